@@ -326,6 +326,37 @@ def check_scanners(cx, facts, rep):
                     if not margs or margs[0] != ('elem', mid):
                         rep.bad('SCAN', where, inst + '-arg', 'the parameter parser is not applied to the meta being examined', f.file, bev.line)
                         continue
+                if X != 'Into':
+                    # what is stored is what the parameter parser returned: `slot = Some(self.build_from_<x>_meta(&meta)?)`, nothing taken
+                    # away or replaced on the way (a struct update, a `map`, a second value): a branch that edits the parsed parameters
+                    # of one spelling makes `Ord(method(f))` and `PartialOrd(method(f))` mean different things
+                    pid_ = b.ev.pos['id']
+                    badstore = None
+                    nstore = 0
+                    for ev_ in sc.fw.events:
+                        if ev_.kind == 'assign' and any(c_.get('id') == pid_ and c_['k'] == 'if' and c_.get('pol') and not c_.get('prior') for c_ in ev_.ctx):
+                            v_ = ev_.value
+                            if isinstance(v_, dict) and v_.get('k') == 'Match' and len(v_.get('arms') or []) == 2:
+                                none_ = [x_ for x_ in v_['arms'] if pat_s(x_['pat']) == 'None']
+                                if none_:
+                                    v_ = none_[0]['body']
+                                    while isinstance(v_, dict) and v_.get('k') == 'Block' and len((v_.get('block') or v_).get('stmts') or []) == 1 and (v_.get('block') or v_)['stmts'][0].get('k') == 'Expr':
+                                        v_ = (v_.get('block') or v_)['stmts'][0]['expr']
+                            try:
+                                t_ = tm.term(v_, ev_.scope)
+                            except Exception:
+                                t_ = None
+                            if 'build_from_' not in es(ev_.value):
+                                continue
+                            nstore += 1
+                            while isinstance(t_, tuple) and len(t_) == 2 and t_[0] in ('Some', 'try', 'paren'):
+                                t_ = t_[1]
+                            if not (isinstance(t_, tuple) and t_[0] == 'mcall' and isinstance(t_[2], str) and t_[2].startswith('build_from_') and t_[1] == ('param', 'self')):
+                                badstore = (ev_, t_)
+                    if badstore is not None:
+                        rep.bad('SCAN', where, inst + '-stored', 'the branch for Trait::%s does not store what the parameter parser returned but something made from it (`%s = %s`): parameters the user wrote under this spelling are dropped or replaced' % (
+                            b.trait, es(badstore[0].target)[:30], ' '.join(es(badstore[0].value).split())[:80]), f.file, badstore[0].line)
+                        continue
                 rep.ok('SCAN', '%s|%s|%s' % (where, inst, 'own' if b.trait == X else 'synonym'), {'scanner': where, 'branch': b.trait, 'actions': acts})
             else:
                 # foreign trait: only a rejection is acceptable
